@@ -136,7 +136,8 @@ End(e) ==
                                        /\ ("tlslive" \in DOMAIN e => e.tlslive = 0))
      \* nothing a task owned (captured by its closure or living on its stack) survives the teardown of a
      \* non-failing execution, whether its tasks finished, were cut off, or never started
-     /\ (e.v \in {"ok", "stopped"} /\ "toklive" \in DOMAIN e) => e.toklive = 0
+     \* (the one deviation the code has: an execution abandoned while a task is unwinding from a panic, see `leak`)
+     /\ (e.v \in {"ok", "stopped"} /\ "toklive" \in DOMAIN e) => (e.toklive = 0 \/ \E t \in Live(s1) : PanicKind(s1, t) # "")
      /\ CASE e.v = "ok" -> \/ (~BoundHit(s1) /\ Ends(s1) /\ Attached(s1) = {})
                             \* abandoned silently by a continue-after bound (or: finished exactly on the bound)
                             \/ (BoundHit(s1) /\ (~BoundFails(s1) \/ (Ends(s1) /\ Attached(s1) = {})))
@@ -146,7 +147,9 @@ End(e) ==
           [] e.v = "stopped" -> s1 = S /\ S.cur = -2
           [] e.v = "panic" -> s1 = S /\ S.cur >= 0 /\ PanicKind(S, S.cur) # "" /\ e.pk = PanicKind(S, S.cur)
           [] OTHER -> FALSE
-     /\ S' = s1
+     \* a task that panicked reached a scheduling point in a drop handler while unwinding, and the scheduler ended the
+     \* execution there: the panic is never re-raised and the task's stack is never unwound (reported as a violation)
+     /\ S' = [s1 EXCEPT !.leak = e.v \in {"ok", "stopped"} /\ "toklive" \in DOMAIN e /\ e.toklive # 0]
 
 Apply(e) == CASE e.e = "exec" -> S' = [hb |-> CK!HInit(ProgsIn[ProgIdx(e.p)])] @@ InitState(ProgIdx(e.p))
               [] e.e = "dec" -> Dec(e)
